@@ -108,9 +108,12 @@ class Acc:
         self.viol_count.update(other.viol_count)
         have = collections.Counter(v["signature"] for v in self.violations)
         for v in other.violations:
-            if have[v["signature"]] < 10:
+            selfc = isinstance(v.get("case"), dict) and bool(v["case"].get("warm"))
+            if have[v["signature"]] < 10 or (selfc and have[(v["signature"], "self-contained")] < 4):
                 self.violations.append(v)
                 have[v["signature"]] += 1
+                if selfc:
+                    have[(v["signature"], "self-contained")] += 1
         for s in other.samples:
             if len(self.samples) < MAX_SAMPLES:
                 self.samples.append(s)
